@@ -126,6 +126,9 @@ func Bootstrap(ctx context.Context, buckets ...string) (*pgmodel.DB, error) {
 	pg := pgmodel.NewDB()
 	st := Open(pg, Options{})
 	defer st.Close()
+	// one fresh session per migration run: the legacy migrations leave session-scoped temporary tables
+	// behind (e.g. transactions_ids), which would collide when a pooled connection migrates a second bucket
+	st.SQL.SetMaxIdleConns(0)
 	err := st.Bun.RunInTx(ctx, nil, func(ctx context.Context, tx bun.Tx) error {
 		if err := systemstore.New(tx).Migrate(ctx); err != nil {
 			return fmt.Errorf("system migrations: %w", err)
